@@ -79,6 +79,23 @@ func (d *driver) runRandom(cls []*class, n, steps int) {
 		}
 		km := keyset.NewManagerFromHandle(h)
 		km.SetAnnotations(map[string]string{"verif": "c05"})
+		hist := fmt.Sprintf("%d.%d", d.stream, t)
+		// the history as KeysetManager.tla sees it: an externally read handle, a manager started from it, then the calls
+		ext := make([]vt.Ev, len(ents))
+		for i, e := range ents {
+			en, err := h.Entry(i)
+			if err != nil {
+				vt.Fatal("Entry(%d): %v", i, err)
+			}
+			req := "none"
+			if r, ok := en.Key().IDRequirement(); ok {
+				req = vt.ID4(r)
+			}
+			ext[i] = vt.Ev{"id": vt.ID4(en.KeyID()), "status": e.Status, "primary": en.IsPrimary(), "req": req, "pt": e.PT, "mat": e.Mat, "impl": e.Impl}
+		}
+		d.w.Emit(vt.Ev{"ev": "reset", "cls": c.name, "hist": hist, "ext": ext})
+		d.w.Emit(vt.Ev{"ev": "FromHandle", "h": 1, "err": false, "st": snapshot(km)})
+		nHandles := 1
 		// every key this history has seen: (id, pt, mat), present or removed
 		seen := map[string]jMaker{}
 		note := func(es []jEntry) {
@@ -88,6 +105,7 @@ func (d *driver) runRandom(cls []*class, n, steps int) {
 		}
 		for s := 0; s <= steps; s++ {
 			op, arg, opErr := "init", "", error(nil)
+			opEv := vt.Ev{}
 			if s > 0 {
 				cur := km.VerifSnapshot()
 				pick := func() uint32 {
@@ -122,26 +140,31 @@ func (d *driver) runRandom(cls []*class, n, steps int) {
 					id, opErr = km.Add(tm)
 					keyset.VerifDraw = nil
 					arg = vt.ID4(id) + "/" + pt + "/" + kt.name
+					opEv = vt.Ev{"id": vt.ID4(id), "withReq": pt != "RAW", "pt": pt}
 				case k < 6:
 					op = "SetPrimary"
 					id := pick()
 					opErr = km.SetPrimary(id)
 					arg = vt.ID4(id)
+					opEv = vt.Ev{"id": arg}
 				case k < 7:
 					op = "Enable"
 					id := pick()
 					opErr = km.Enable(id)
 					arg = vt.ID4(id)
+					opEv = vt.Ev{"id": arg}
 				case k < 9:
 					op = "Disable"
 					id := pick()
 					opErr = km.Disable(id)
 					arg = vt.ID4(id)
+					opEv = vt.Ev{"id": arg}
 				default:
 					op = "Delete"
 					id := pick()
 					opErr = km.Delete(id)
 					arg = vt.ID4(id)
+					opEv = vt.Ev{"id": arg}
 				}
 			}
 			real, err := km.Handle()
@@ -163,6 +186,22 @@ func (d *driver) runRandom(cls []*class, n, steps int) {
 			}
 			cur := d.project(c, real)
 			note(cur)
+			if s > 0 {
+				opEv["ev"], opEv["err"], opEv["st"] = op, opErr != nil, snapshot(km)
+				if op == "Add" {
+					for _, e := range cur { // what the new key was created as (its material got its label in project)
+						if e.ID == opEv["id"] {
+							opEv["meta"] = vt.Ev{"pt": e.PT, "mat": e.Mat, "impl": e.Impl}
+						}
+					}
+					if opErr != nil {
+						vt.Fatal("Add failed: %v", opErr)
+					}
+				}
+				d.w.Emit(opEv)
+			}
+			d.w.Emit(vt.Ev{"ev": "Handle", "err": false})
+			nHandles++
 			// inputs: every key seen so far as it is, with another prefix type, with foreign material; prefix-less
 			// outputs of every material seen colliding with every prefixed entry
 			var makers []jMaker
@@ -184,7 +223,7 @@ func (d *driver) runRandom(cls []*class, n, steps int) {
 				}
 			}
 			sortMakers(makers)
-			d.instantiate(c, cur, makers, vt.Ev{"hist": fmt.Sprintf("%d.%d", d.stream, t), "step": s, "op": op, "arg": arg, "operr": opErr != nil}, hs)
+			d.instantiate(c, cur, makers, vt.Ev{"hist": hist, "step": s, "op": op, "arg": arg, "h": nHandles}, hs)
 		}
 	}
 }
@@ -196,4 +235,19 @@ func sortMakers(ms []jMaker) {
 			ms[j], ms[j-1] = ms[j-1], ms[j]
 		}
 	}
+}
+
+// snapshot: the manager's entries as KeysetManager.tla carries them (id, status, primary, ID requirement)
+func snapshot(km *keyset.Manager) []vt.Ev {
+	snap := km.VerifSnapshot()
+	out := make([]vt.Ev, len(snap))
+	for i, e := range snap {
+		req := "none"
+		if e.HasIDReq {
+			req = vt.ID4(e.IDReq)
+		}
+		st := map[keyset.KeyStatus]string{keyset.Enabled: "ENABLED", keyset.Disabled: "DISABLED", keyset.Destroyed: "DESTROYED"}[e.Status]
+		out[i] = vt.Ev{"id": vt.ID4(e.ID), "status": st, "primary": e.IsPrimary, "req": req}
+	}
+	return out
 }
